@@ -52,7 +52,8 @@ NoDup(s) == \A i, j \in DOMAIN s : i # j => s[i] # s[j]
 Restrict(s, S) == SelectSeq(s, LAMBDA x : x \in S)
 Without(s, S) == SelectSeq(s, LAMBDA x : x \notin S)
 KeysOf(ms) == [i \in DOMAIN ms |-> ms[i].k]
-Perms(S) == {f \in [1..Cardinality(S) -> S] : \A i, j \in 1..Cardinality(S) : i # j => f[i] # f[j]}
+RECURSIVE Perms(_)
+Perms(S) == IF S = {} THEN {<<>>} ELSE UNION {{<<x>> \o p : p \in Perms(S \ {x})} : x \in S}
 
 ---------------------------------------------------------------------------
 (* THE LAW on a merged list                                                *)
@@ -130,6 +131,11 @@ ServerOnlyLast(a, b) == \A i, j \in DOMAIN b : (b[i] \notin Range(a) /\ b[j] \in
 (* merge_slice: the keys in merged order, each with the side callback's mark *)
 MarkedMerge(a, b) == Marked(MergeOrder(a, b), a, b)
 MarkedMergeAsCoded(a, b) == Marked(MergeOrderAsCoded(a, b), a, b)
+
+(* expectation records enumerate the law's extension up to 6 keys (720 orders); beyond that  *)
+(* (only in expectations printed for rejected trace records) one admissible result stands    *)
+(* for all - the verdict on long lists is always ListLaw itself, never this enumeration      *)
+LawResultsB(a, b) == IF Cardinality(Range(a) \cup Range(b)) <= 6 THEN LawResults(a, b) ELSE {MarkedMerge(a, b)}
 
 ---------------------------------------------------------------------------
 (* names *)
@@ -281,9 +287,9 @@ ClassExp(n, C, S) ==
       [] OTHER ->
            IF C[n] = S[n] THEN PlainClass(C[n])
            ELSE [mark |-> "none", xitf |-> <<>>,
-                 itf |-> [anyof |-> LawResults(C[n].itf, S[n].itf)],
-                 fields |-> [anyof |-> LawResults(KeysOf(C[n].fields), KeysOf(S[n].fields))],
-                 methods |-> [anyof |-> LawResults(KeysOf(C[n].methods), KeysOf(S[n].methods))]]
+                 itf |-> [anyof |-> LawResultsB(C[n].itf, S[n].itf)],
+                 fields |-> [anyof |-> LawResultsB(KeysOf(C[n].fields), KeysOf(S[n].fields))],
+                 methods |-> [anyof |-> LawResultsB(KeysOf(C[n].methods), KeysOf(S[n].methods))]]
 
 ExpJars(C, S) ==
     LET CN == {n \in Names(C, S) : KindOfName(n) = "class" /\ ~MustDrop(n, C, S) /\ ~MayDrop(n)}
@@ -295,7 +301,7 @@ ExpJars(C, S) ==
 (* class files are byte-identical (possible only if a = b)                                 *)
 ExpLists(a, b, same) ==
     IF same THEN [ok |-> TRUE, eqc |-> TRUE, eqs |-> TRUE, mark |-> "none", xitf |-> <<>>, r |-> NoMarks(a)]
-    ELSE [ok |-> TRUE, mark |-> "none", xitf |-> <<>>, r |-> [anyof |-> LawResults(a, b)]]
+    ELSE [ok |-> TRUE, mark |-> "none", xitf |-> <<>>, r |-> [anyof |-> LawResultsB(a, b)]]
 
 ListsLaw(g, a, b, same) ==
     /\ "ok" \in DOMAIN g /\ g.ok
